@@ -549,9 +549,15 @@ def changed_value(old, variant: int = 0):
 # materialise a case
 
 def materialise(case: dict):
-    built = G.build(case['recipe'])
-    ds = built.ds
-    state = initial_state(built)
+    if case.get('big') is not None:
+        # a dataset of realistic size, built with numpy alone (harness/gen/c16_extra.py)
+        from harness.gen import c16_extra
+        built = c16_extra.build(case['big'])
+        ds, state = built.ds, built.state
+    else:
+        built = G.build(case['recipe'])
+        ds = built.ds
+        state = initial_state(built)
     if case.get('edge_coords'):
         ds = add_edge_coords(ds, built, state, case['edge_coords'])
     if case.get('enrich', True):
